@@ -78,12 +78,20 @@ func init() {
 			if af.stopped {
 				return false
 			}
+			if _, held := p.ghost["holdTimers"]; held {
+				return false
+			}
 			return true
 		}
 		th.onStart = func() { af.started = true }
 		p.startThread(th, false)
 		return tm
 	}
+}
+
+func init() {
+	intrinsics["vfHoldTimers"] = func(p *Path, fr *frame, a []Value) Value { p.ghost["holdTimers"] = true; return nil }
+	intrinsics["vfReleaseTimers"] = func(p *Path, fr *frame, a []Value) Value { delete(p.ghost, "holdTimers"); return nil }
 }
 
 type afterFunc struct {
